@@ -30,7 +30,8 @@ REQUIRED = ['qstar_consistent', 'score_rowwise', 'score_identity', 'score_equati
             'score_equations_crossfit', 'plugin_def', 'plugin_targets', 'ate_def', 'targets_range', 'plugin_range',
             'range_binary', 'range_binary_closed', 'unbound_range', 'range_continuous', 'range_crossfit',
             'unit_bounds_range', 'unit_roundtrip', 'unit_roundtrip_clip', 'expit_real_range',
-            'expit_real_strictMono', 'expit_logit_real', 'range_binary_real', 'score_equations_real', 'tmle_fit_generated_binary', 'tmle_fit_generated_continuous', 'tmle_fit_generated_useMiss']
+            'expit_real_strictMono', 'expit_logit_real', 'range_binary_real', 'score_equations_real', 'tmle_fit_generated_binary', 'tmle_fit_generated_continuous', 'tmle_fit_generated_useMiss',
+            'xfit_targeting_generated']
 RULE = ('TMLE.fit: (1) every cell of outcome {binary, continuous} x outcome missingness {none, missing without model, '
         'missing with missing_model} x g truncation {none, symmetric, asymmetric} x covariates {categorical only, '
         'categorical + continuous}, with alpha, continuous_bound, outcome-model bound, missing-model bound, GLM family '
